@@ -1001,6 +1001,107 @@ fn read_closest(drv: &syn::File) -> Result<(), String> {
     Ok(())
 }
 
+/// ant-node/src/replication.rs, the task spawned by `fetch_replication_keys_without_wait`: what happens after
+/// `store_replicated_in_record` returned. Two-sided:
+/// * `true`: the `else` (= Ok) branch of `if let Err(..) = node.store_replicated_in_record(record).await` holds the ONLY
+///   `notify_fetch_completed` call of the function, `node.network().notify_fetch_completed(k, t)` with `(k, t)` bound by
+///   `if let Some((k, t)) = x`, `x` being `Self::fetched_record_type(&record).map(|t| (record.key.clone(), t))` computed
+///   before the store call, and the helper maps Chunk ↦ Chunk, Scratchpad ↦ Scratchpad, Transaction | Register ↦
+///   NonChunk(XorName::from_content(&record.value)), anything else ↦ None (what the `PutLocalRecord` handler derives);
+/// * `false`: no `notify_fetch_completed` / `fetched_record_type` anywhere in the file and the `if let Err` is there;
+/// * anything else is refused.
+fn read_fetch_task(file: &syn::File) -> Result<bool, String> {
+    let f = impl_fn(file, "Node", None, "fetch_replication_keys_without_wait")?;
+    struct Ifs<'a>(Vec<&'a syn::ExprIf>);
+    impl<'ast> Visit<'ast> for Ifs<'ast> {
+        fn visit_expr_if(&mut self, i: &'ast syn::ExprIf) {
+            if let syn::Expr::Let(l) = &*i.cond {
+                if toks(&l.expr).contains(".store_replicated_in_record(") {
+                    self.0.push(i);
+                }
+            }
+            syn::visit::visit_expr_if(self, i);
+        }
+    }
+    let mut ifs = Ifs(vec![]);
+    ifs.visit_block(&f.block);
+    let whole_fn = toks(&f.block);
+    if ifs.0.len() != 1 || whole_fn.matches("store_replicated_in_record(").count() != 1 {
+        return Err(format!(
+            "fetch_replication_keys_without_wait: expected exactly one `if let Err(..) = node.store_replicated_in_record(record).await`, found {}",
+            ifs.0.len()
+        ));
+    }
+    let i = ifs.0[0];
+    let syn::Expr::Let(l) = &*i.cond else { unreachable!() };
+    if !toks(&l.pat).starts_with("Err(") || toks(&l.expr) != "node.store_replicated_in_record(record).await" {
+        return Err(format!("fetch_replication_keys_without_wait: unexpected test `{}` = `{}`", toks(&l.pat), toks(&l.expr)));
+    }
+    let whole_file = toks(file);
+    let n_file = whole_file.matches("notify_fetch_completed").count();
+    let n_helper_uses = whole_file.matches("fetched_record_type").count();
+    if n_file == 0 && n_helper_uses == 0 {
+        return Ok(false);
+    }
+    // repaired shape
+    let err_branch = toks(&i.then_branch);
+    let ok_branch = match &i.else_branch {
+        Some((_, e)) => toks(&**e),
+        None => return Err("fetch_replication_keys_without_wait: notify_fetch_completed present but the store test has no else branch".into()),
+    };
+    if n_file != 1 || err_branch.contains("notify_fetch_completed") || ok_branch.matches("notify_fetch_completed").count() != 1 {
+        return Err("fetch_replication_keys_without_wait: notify_fetch_completed must occur exactly once, in the Ok branch of the store test".into());
+    }
+    // `if let Some((k, t)) = x { node.network().notify_fetch_completed(k, t); }` inside the Ok branch
+    struct Notes(Vec<(String, String, String)>);
+    impl<'ast> Visit<'ast> for Notes {
+        fn visit_expr_if(&mut self, i: &'ast syn::ExprIf) {
+            if let syn::Expr::Let(l) = &*i.cond {
+                self.0.push((toks(&l.pat), toks(&l.expr), toks(&i.then_branch)));
+            }
+            syn::visit::visit_expr_if(self, i);
+        }
+    }
+    let mut notes = Notes(vec![]);
+    if let Some((_, e)) = &i.else_branch {
+        notes.visit_expr(e);
+    }
+    let hit: Vec<&(String, String, String)> = notes.0.iter().filter(|(_, _, body)| body.contains("notify_fetch_completed")).collect();
+    if hit.len() != 1 {
+        return Err("fetch_replication_keys_without_wait: the notify_fetch_completed call is not inside one `if let Some((key, type)) = ..`".into());
+    }
+    let (pat, src, body) = hit[0];
+    let inner = pat.strip_prefix("Some((").and_then(|x| x.strip_suffix("))")).ok_or(format!("unexpected pattern {pat}"))?;
+    let names: Vec<&str> = inner.split(',').collect();
+    if names.len() != 2 || !body.contains(&format!("node.network().notify_fetch_completed({},{});", names[0], names[1])) {
+        return Err(format!("fetch_replication_keys_without_wait: notify_fetch_completed is not called with the pair bound by `{pat}`"));
+    }
+    // `let x = Self::fetched_record_type(&record).map(|t| (record.key.clone(), t));` before the store test
+    let want = format!("let{src}=Self::fetched_record_type(&record).map(|t|(record.key.clone(),t));");
+    let at_let = whole_fn.find(&want);
+    let at_store = whole_fn.find("node.store_replicated_in_record(record).await");
+    match (at_let, at_store) {
+        (Some(a), Some(b)) if a < b => {}
+        _ => return Err(format!("fetch_replication_keys_without_wait: `{src}` is not `Self::fetched_record_type(&record).map(|t| (record.key.clone(), t))` computed before the store call")),
+    }
+    if n_helper_uses != 2 {
+        return Err("fetched_record_type: expected one definition and one use".into());
+    }
+    // the helper
+    let h = impl_fn(file, "Node", None, "fetched_record_type")?;
+    let sig = toks(&h.sig);
+    if sig != "fnfetched_record_type(record:&Record)->Option<RecordType>" {
+        return Err(format!("fetched_record_type: unexpected signature {sig}"));
+    }
+    // braces and commas are layout here (one expression per arm)
+    let body: String = toks(&h.block).chars().filter(|c| !matches!(c, '{' | '}' | ',')).collect();
+    let want_body = "matchRecordHeader::from_record(record).ok()?.kindRecordKind::Chunk=>Some(RecordType::Chunk)RecordKind::Scratchpad=>Some(RecordType::Scratchpad)RecordKind::Transaction|RecordKind::Register=>Some(RecordType::NonChunk(XorName::from_content(&record.value)))_=>None";
+    if body != want_body {
+        return Err(format!("fetched_record_type: unrecognised body {body}"));
+    }
+    Ok(true)
+}
+
 pub fn generate(repo: &PathBuf) -> Result<String, String> {
     let k = k_value(repo)?;
     let proto = parse_file(&repo.join("ant-protocol/src/lib.rs"))?;
@@ -1029,7 +1130,11 @@ pub fn generate(repo: &PathBuf) -> Result<String, String> {
     let drv = parse_file(&repo.join("ant-networking/src/driver.rs"))?;
     read_closest(&drv)?;
 
-    let mut s = header(&format!("{cmd_rel}, {rr_rel}, ant-networking/src/driver.rs, ant-protocol/src/lib.rs"));
+    let node_repl_rel = "ant-node/src/replication.rs";
+    let node_repl = parse_file(&repo.join(node_repl_rel))?;
+    let fetch_task_notifies = read_fetch_task(&node_repl)?;
+
+    let mut s = header(&format!("{cmd_rel}, {rr_rel}, ant-networking/src/driver.rs, ant-protocol/src/lib.rs, {node_repl_rel}"));
     s.push_str("namespace SafeNet.Gen.Replication\n");
     s.push_str(&format!("/-- libp2p-kad `K_VALUE`: `get_closest_k_value_local_peers` = self followed by the nearest known peers, cut at this length -/\ndef kValue : Nat := {k}\n"));
     s.push_str(&format!("/-- `CLOSE_GROUP_SIZE` -/\ndef closeGroupSize : Nat := {cgs}\n"));
@@ -1044,6 +1149,7 @@ pub fn generate(repo: &PathBuf) -> Result<String, String> {
     s.push_str(&format!("/-- the handler returns early when the holder is this node -/\ndef replicateRejectsSelf : Bool := {}\n", lean_bool(rejects_self)));
     s.push_str(&format!("/-- a non-empty result of `add_keys` is announced as `KeysToFetchForReplication` -/\ndef replicateEmitsFetchEvent : Bool := {}\n", lean_bool(emits_event)));
     s.push_str(&format!("/-- `try_interval_replication` sends nothing (and stamps no target) when the index is empty -/\ndef intervalSkipsEmptyIndex : Bool := {}\n", lean_bool(sends_only_nonempty)));
+    s.push_str(&format!("/-- the fetch task of `fetch_replication_keys_without_wait` reports the fetch complete (`notify_fetch_completed(record.key, <record type of the fetched bytes>)`) whenever `store_replicated_in_record` returned Ok — also when nothing was stored (false: it only logs, a copy that changes nothing leaves its in-flight entry until FETCH_TIMEOUT) -/\ndef fetchTaskNotifiesCompletion : Bool := {}\n", lean_bool(fetch_task_notifies)));
     s.push_str("end SafeNet.Gen.Replication\n");
     Ok(s)
 }
